@@ -44,8 +44,7 @@ add('C17', 'property-based testing: validity predicate over outcomes (normal ret
     'DESIGN.md section 5 C17')
 add('C03', 'property-based testing: pastified online monitor vs reference semantics on every prefix, with forced siblings of different horizon (Hypothesis)',
     'For generated bounded-future formulas every update i >= h of the pastified monitor is compared with R-dt(phi, w[0..i])[i-h]; pure-past specifications must be unchanged '
-    'by pastify(); unbounded future must make pastify() raise RTAMTException. One open finding (warm-up of past operators over delayed operands) is stepped around by '
-    'construction and exercised in its own lane.',
+    'by pastify(); unbounded future must make pastify() raise RTAMTException. Lanes for siblings of different horizon, past operators over future operands (warm-up), pure-past specifications and unit spellings.',
     'Trusted: vlib/refsem.py and the harness horizon function; outputs for i < h are unconstrained.',
     'DESIGN.md section 5 C03')
 add('C14', 'property-based testing / grammar-based fuzzing: generated, mutated and random-token specification texts against an independent tokenizer + recogniser and an exception-type oracle (Hypothesis)',
